@@ -173,6 +173,14 @@ where
             };
             let m_exact = c.op.rat(&xr, &yr).unwrap().mul(&sigma_exact);
             let (we, wc) = (pick(&m_exact, &elig), pick(&m_comp_r, &elig));
+            // a second, equally faithful evaluation order: the two reference-unit magnitudes first
+            let wb = guard(|| match c.op {
+                Op::Mul => (x * sl) * (y * sx),
+                Op::Div => (x * sl) / (y * sx),
+            })
+            .ok()
+            .and_then(rat_of)
+            .map(|m| pick(&m, &elig));
             rep.inc("fit_cases");
             rep.inc("sensitive");
             if we != wc {
@@ -189,6 +197,7 @@ where
             let (wl, wh) = (pick(&m_lo, &elig), pick(&m_hi, &elig));
             let ok = zr[iw].eq(&elig[we].1)
                 || zr[iw].eq(&elig[wc].1)
+                || wb.map(|w| zr[iw].eq(&elig[w].1)).unwrap_or(false)
                 || (!on_boundary && (zr[iw].eq(&elig[wl].1) || zr[iw].eq(&elig[wh].1)));
             if !ok {
                 rep.violation(
